@@ -7,6 +7,27 @@ props = [json.loads(l) for l in open(os.path.join(HERE, "properties.jsonl"))]
 MC = "model_checking"
 CHECKS = {
 
+ "C06": dict(
+   level="exploration", engine="enumlib", design="DESIGN.md section 2, C06",
+   technique="bounded-exhaustive enumeration of function shapes against a semantic oracle, of source forms x raise positions in a virtual session, and of a finite stdio configuration matrix on real interpreters",
+   text="48 function shapes (parameter kinds, defaults from constants/builtins/globals, body references to locals/builtins/module globals/imported modules/inner imports, inner defs/classes/closures/comprehensions/lambdas, decorated, lambda, methods, nested with and without closure): a function is accepted iff its own dedented source defines and runs it in a fresh namespace, rejection is ValueError with zero bytes written, every accepted function really runs remotely. String / function / module sources in virtual sessions (popen thread + main_thread_only, socket, via): channel and __name__ bound, 57 kwargs values arrive type-exact, remote tracebacks name the original file and line for a raise at each statement, the channel is open while the body blocks and closed when it ends, close() from inside refused. Real processes: print / sys.stdout.write / os.write(1) / os.write(2) / grandchild writing to fd 1, sizes up to 64 KiB (1 MiB thorough), before/between/after channel items, on popen, popen//python= and via: transcript unchanged and gateway receive-live.",
+   note="The stdio clause is about fd redirection at the OS boundary and is decided on real interpreters (scheduling not controlled there; a deviating cell is re-run once). Bound methods / builtins passed to remote_exec are treated by the API as source strings and are outside the quantifier."),
+ "C08": dict(
+   level=MC, design="DESIGN.md section 2, C08",
+   technique="exhaustive enumeration of read chunkings through the real IO classes plus stateless model checking of concurrent senders with sendall-split environment choices",
+   text="Every message code x channel ids over the full signed 32-bit range x payload lengths: ALL 2^(n-1) compositions of the byte stream into low-level reads for streams <=14 bytes and all chunkings with <=3 boundaries for longer streams / two-message sequences, through Popen2IO.read, SocketIO.read and ProxyIO.read (1.3M decodes) against independent struct framing; to_io writes exactly the reference bytes with one write call on each IO class; 2 concurrent sender threads per side / per channel on virtual popen, socket and via gateways with item sizes 1 and 70000, sendall split inside the header / at the header boundary / inside the payload as environment choice, all interleavings within <=2 preemptions: the peer decodes exactly the frames sent. Real 2 x 6 x 4 MiB confirmation: findings/c08_socket_interleave_real.py.",
+   note="BufferedWriter.write atomicity for pipes is trusted (and confirmed empirically); socket sendall is modelled as a loop of partial sends."),
+ "C19": dict(
+   level="exploration", engine="enumlib", design="DESIGN.md section 2, C19",
+   technique="bounded-exhaustive enumeration of strings x item splits x call sequences against io.StringIO / io.BytesIO as reference model; writer operation sequences in virtual sessions",
+   text="All strings over {a, b, newline} up to length 4 (5 thorough), as text and as bytes, x all ordered splits into channel items incl. interleaved empty items x all sequences of up to 3 (4) calls over read(0)/read(1)/read(2)/read(7)/readline() followed by three calls past the end (1.07M call sequences quick): results equal those of a file over the concatenation, empty forever after the end. All makefile('w') operation sequences up to length 3-4 over write(str)/write(bytes)/flush/file.close/channel.close x proxyclose on a real channel in a virtual session: one item per write, flush harmless, write after close raises OSError, close closes the channel iff proxyclose; plus reader histories on real channels over popen and via.",
+   note="The exhaustive reader runs drive Channel.makefile('r') over a stub receive(); a set of histories over the real Channel binds them to the implementation."),
+ "C20": dict(
+   level=MC, design="DESIGN.md section 2, C20",
+   technique="bounded-exhaustive enumeration of spec strings against a hand-written reference semantics, plus stateless model checking of concurrent makegateway/exit on one group (statement-level preemption in Group)",
+   text="All 1-entry specs over keys of length 1-2 and values of length 0-2 from 7-symbol alphabets incl. '=', ':', '/', space, non-ASCII (+ named keys incl. env:NAME forms), 2- and 3-entry specs over reduced sets (36k specs): attributes, True for bare keys, env collection, None for absent names, str/==/!=/hash by text; every repeated-key shape (plain and env:) must raise ValueError; python= splitting into argv. Group ids: two threads calling makegateway with automatic ids, an explicit id that is live, an explicit id equal to the next automatic id, the same explicit id twice, racing with exit() of a member, under all interleavings with <=1 sync / <=2 statement-level preemptions: live ids pairwise distinct at every observation, lookup by id/index/membership agrees with iteration, a failing call leaves no live child process.",
+   note="Compositions where '/' touches a '//' separator are outside the quantifier. The bare key 'env' is a recorded known finding. Virtual popen: process start-up is modelled."),
+
  "C01": dict(
    level="exploration", engine="enumlib", design="DESIGN.md section 2, C01",
    technique="bounded-exhaustive enumeration of the value grammar (small-scope model checking of the input space) against a typed structural-equality oracle; channel clause on a virtual gateway session",
